@@ -24,4 +24,26 @@ PROPS = {
         "assumptions": ["Go map iteration order only affects Unique()/AppliedResourceUIDs(), which are compared as sorted lists"],
         "trusted_base": ["model: lean/CliUtils/Model/{IdSet,Manager,IdStr}.lean (hand-written; FNV-1a and sort.Strings modelled, fmt.Sprintf trusted)"],
     },
+    "C15": {
+        "domains": ["idstr", "invstore", "dep"],
+        "level_text": ("Machine-checked Lean 4 theorems over all identifiers (strings as List Char): every id whose fields are free of the separator "
+                       "round-trips through String/ParseObjMetadata (with ':'<->'__' transcoding for RBAC kinds); accepted ids never share a key; "
+                       "Store rejects every id that does not round-trip; whatever Store wrote, Load reads back as the same set; depends-on "
+                       "references round-trip and malformed ones are rejected. The model (format/parse/store/load/depFormat/depParse) is tied to the "
+                       "code by exhaustive short-string enumeration over the critical alphabet plus random fields through the real functions and "
+                       "the real ConfigMap Store/GetObject/Load."),
+        "level_note": ("Trusted: Lean kernel (+propext, Quot.sound, Classical.choice), hand-written model of strings.Index/LastIndex/ReplaceAll/Split/TrimSpace "
+                       "(validated by the correspondence run incl. unicode), fmt.Sprintf, unstructured.SetNestedStringMap, Go harness and driver."),
+        "technique": "Lean 4 proof (induction over List Char) + exhaustive/differential correspondence against the real Go code",
+        "rule": ("idstr: every name of length <= 4 (quick) / <= 5 (thorough) over {a,-,.,:,_} x 4 (group,kind) pairs x namespaces, random ids with "
+                 "separators/unicode in every field, every string of length <= 6/7 over {a,_,:,R} and random 4-field strings through ParseObjMetadata; "
+                 "invstore: singletons and pairs from a pool of colliding/lossy/valid ids + random sets of <= 6 ids through the real ConfigMap "
+                 "Store->GetObject->Load; dep: names of length <= 3/4 over {a,:,/,',',space,_} x kinds x namespaces (incl. the literal 'namespaces'), "
+                 "strings over {a,/,namespaces,space,','} through ParseObjMetadata/ParseDependencySet, random dependency sets. "
+                 "non-trivial: name/string not empty (>= 1..3 chars); distinct = distinct canonical input JSON."),
+        "explanation": ("Spec predicates evaluated on the implementation: a well-formed id reads back as itself; Store either errors or what it wrote "
+                        "loads back as exactly the distinct ids with one key each; an accepted dependency reference consists of the '/'-separated fields."),
+        "assumptions": ["names containing ',' or leading/trailing blanks in a depends-on annotation are outside the property's alphabet: recorded (tags dep:not-wf), not alarmed"],
+        "trusted_base": ["model: lean/CliUtils/Model/IdStr.lean"],
+    },
 }
